@@ -1632,15 +1632,37 @@ where
     }
 }
 
+impl<'a, T> ResultItem<'a, T>
+where
+    T: Storable,
+{
+    /// The handle of this item, if `store` is the store that holds it.
+    /// A handle is only unique within the store that holds the item (every dataset numbers its keys and data from 0),
+    /// so in any other store this item does not exist.
+    fn handle_in<S>(&self, store: &S) -> Option<T::HandleType>
+    where
+        S: StoreFor<T>,
+    {
+        if std::ptr::eq(
+            self.store as *const T::StoreType as *const (),
+            store as *const S as *const (),
+        ) {
+            Some(self.handle())
+        } else {
+            None
+        }
+    }
+}
+
 impl<'a, T> Request<T> for ResultItem<'a, T>
 where
     T: Storable,
 {
-    fn to_handle<'store, S>(&self, _store: &'store S) -> Option<T::HandleType>
+    fn to_handle<'store, S>(&self, store: &'store S) -> Option<T::HandleType>
     where
         S: StoreFor<T>,
     {
-        Some(self.handle())
+        self.handle_in(store)
     }
 }
 
@@ -1648,11 +1670,11 @@ impl<'a, T> Request<T> for &ResultItem<'a, T>
 where
     T: Storable,
 {
-    fn to_handle<'store, S>(&self, _store: &'store S) -> Option<T::HandleType>
+    fn to_handle<'store, S>(&self, store: &'store S) -> Option<T::HandleType>
     where
         S: StoreFor<T>,
     {
-        Some(self.handle())
+        self.handle_in(store)
     }
 }
 
